@@ -1413,7 +1413,8 @@ func getHashCode(n NodeNavigator) uint64 {
 	var tail string
 	switch n.NodeType() {
 	case AttributeNode, TextNode, CommentNode:
-		tail = n.LocalName() + "=" + n.Value()
+		// two attributes of one element may differ in the prefix only.
+		tail = n.Prefix() + ":" + n.LocalName() + "=" + n.Value()
 	case ElementNode:
 		tail = n.Prefix() + n.LocalName()
 	}
